@@ -1,7 +1,12 @@
-// refpeg — executable reference PEG interpreter = the denotation `sem` of DESIGN.md §4 in executable form.
-// Immutable stack (a Copy array), full backtracking, empty-stack / out-of-range operations fail.
-// Written from the property statements (C01, C05, C06, C07, C19), not from the code under test.
+// refpeg — reference PEG combinators = the denotation `sem` of DESIGN.md §4 in executable form.
+// Immutable stack (a Copy array passed by value), full backtracking, empty-stack / out-of-range operations
+// fail.  Written from the property statements (C01, C05, C06, C07, C19), not from the code under test.
+// The expression is a *type* (static dispatch, no recursion in the call graph: CBMC unwinds recursion per call
+// site, which made a recursive interpreter over an expression enum intractable).
 pub mod refpeg {
+    use core::marker::PhantomData;
+    use crate::{StringArrayWrapper, StringWrapper};
+
     pub const STK: usize = 4;
     #[derive(Clone, Copy, PartialEq, Eq, Debug)]
     pub struct Stk {
@@ -22,42 +27,19 @@ pub mod refpeg {
             Some((self, self.s[self.n]))
         }
     }
-    pub const INF: usize = usize::MAX;
-    #[derive(Clone, Copy)]
-    pub enum E {
-        Str(&'static str),
-        Insens(&'static str),
-        Range(char, char),
-        Any,
-        Soi,
-        Eoi,
-        Newline,
-        SkipChar(usize),
-        SkipUntil(&'static [&'static str]),
-        /// elements, number of skips between elements
-        Seq(&'static [E], usize),
-        Choice(&'static [E]),
-        Opt(&'static E),
-        /// body, min, max (INF = unbounded), number of skips between iterations
-        Rep(&'static E, usize, usize, usize),
-        Pos(&'static E),
-        Neg(&'static E),
-        Push(&'static E),
-        Peek,
-        Pop,
-        Drop,
-        PeekAll,
-        PopAll,
-        PeekSlice(i32, Option<i32>),
-    }
-    /// the input is `s[start..end]`; cursor `pos`; `skip` = the WHITESPACE/COMMENT expression (None: nothing to skip)
+    /// the input is `s[start..end]`
     pub struct Cx<'a> {
         pub s: &'a str,
         pub start: usize,
         pub end: usize,
-        pub skip: Option<&'static E>,
     }
-    fn starts(cx: &Cx<'_>, pos: usize, lit: &[u8]) -> bool {
+    pub type R = Option<(usize, Stk)>;
+    /// a PEG expression
+    pub trait RN { fn ev(cx: &Cx<'_>, pos: usize, st: Stk) -> R; }
+    /// an expression that cannot fail (the implicit skip)
+    pub trait RNF { fn evn(cx: &Cx<'_>, pos: usize, st: Stk) -> (usize, Stk); }
+
+    pub fn starts(cx: &Cx<'_>, pos: usize, lit: &[u8]) -> bool {
         let b = cx.s.as_bytes();
         if pos + lit.len() > cx.end { return false; }
         let mut i = 0;
@@ -68,145 +50,201 @@ pub mod refpeg {
         true
     }
     fn lower(x: u8) -> u8 { if x >= b'A' && x <= b'Z' { x + 32 } else { x } }
-    fn first_char(cx: &Cx<'_>, pos: usize) -> Option<(char, usize)> {
+    /// byte length of the scalar value starting at pos (from its leading byte)
+    fn char_len_at(cx: &Cx<'_>, pos: usize) -> Option<usize> {
         if pos >= cx.end { return None; }
-        let c = cx.s[pos..cx.end].chars().next()?;
-        Some((c, c.len_utf8()))
+        let b = cx.s.as_bytes()[pos];
+        Some(if b < 0x80 { 1 } else if b < 0xE0 { 2 } else if b < 0xF0 { 3 } else { 4 })
     }
     fn norm(i: i32, len: usize) -> Option<usize> {
         let (i, l) = (i as i64, len as i64);
         if i > l { None } else if i >= 0 { Some(i as usize) } else if l + i >= 0 { Some((l + i) as usize) } else { None }
     }
-    /// the skip expression applied `k` times (it never fails: a failing skip attempt skips nothing)
-    fn skip_k(cx: &Cx<'_>, k: usize, mut pos: usize, mut st: Stk) -> (usize, Stk) {
+    fn skip_k<SK: RNF>(cx: &Cx<'_>, k: usize, mut pos: usize, mut st: Stk) -> (usize, Stk) {
         let mut i = 0;
-        while i < k {
-            if let Some(e) = cx.skip {
-                if let Some((p, s)) = eval(e, cx, pos, st) { pos = p; st = s; }
-            }
-            i += 1;
-        }
+        while i < k { let r = SK::evn(cx, pos, st); pos = r.0; st = r.1; i += 1; }
         (pos, st)
     }
-    pub fn eval(e: &E, cx: &Cx<'_>, pos: usize, st: Stk) -> Option<(usize, Stk)> {
-        match *e {
-            E::Str(l) => if starts(cx, pos, l.as_bytes()) { Some((pos + l.len(), st)) } else { None },
-            E::Insens(l) => {
-                let b = cx.s.as_bytes();
-                let lb = l.as_bytes();
-                if pos + lb.len() > cx.end || !cx.s.is_char_boundary(pos + lb.len()) { return None; }
-                let mut i = 0;
-                while i < lb.len() {
-                    if lower(b[pos + i]) != lower(lb[i]) { return None; }
-                    i += 1;
-                }
-                Some((pos + lb.len(), st))
-            }
-            E::Range(lo, hi) => match first_char(cx, pos) { Some((c, n)) if lo <= c && c <= hi => Some((pos + n, st)), _ => None },
-            E::Any => first_char(cx, pos).map(|(_, n)| (pos + n, st)),
-            E::Soi => if pos == cx.start { Some((pos, st)) } else { None },
-            E::Eoi => if pos == cx.end { Some((pos, st)) } else { None },
-            E::Newline => {
-                if starts(cx, pos, b"\r\n") { Some((pos + 2, st)) }
-                else if starts(cx, pos, b"\n") { Some((pos + 1, st)) }
-                else if starts(cx, pos, b"\r") { Some((pos + 1, st)) }
-                else { None }
-            }
-            E::SkipChar(n) => {
-                let mut p = pos;
-                let mut i = 0;
-                while i < n {
-                    match first_char(cx, p) { Some((_, k)) => p += k, None => return None }
-                    i += 1;
-                }
-                Some((p, st))
-            }
-            E::SkipUntil(needles) => {
-                // least boundary offset at which a needle is a prefix of the remaining *sub-input*, else end
-                let mut p = pos;
-                while p < cx.end {
-                    if cx.s.is_char_boundary(p) {
-                        let mut j = 0;
-                        while j < needles.len() {
-                            if starts(cx, p, needles[j].as_bytes()) { return Some((p, st)); }
-                            j += 1;
-                        }
-                    }
-                    p += 1;
-                }
-                Some((cx.end, st))
-            }
-            E::Seq(items, skip) => {
-                let (mut p, mut s) = (pos, st);
-                let mut i = 0;
-                while i < items.len() {
-                    if i > 0 { let r = skip_k(cx, skip, p, s); p = r.0; s = r.1; }
-                    match eval(&items[i], cx, p, s) { Some((q, t)) => { p = q; s = t; } None => return None }
-                    i += 1;
-                }
-                Some((p, s))
-            }
-            E::Choice(alts) => {
-                let mut i = 0;
-                while i < alts.len() {
-                    if let Some(r) = eval(&alts[i], cx, pos, st) { return Some(r); }
-                    i += 1;
-                }
-                None
-            }
-            E::Opt(x) => match eval(x, cx, pos, st) { Some(r) => Some(r), None => Some((pos, st)) },
-            E::Rep(x, min, max, skip) => {
-                let (mut p, mut s) = (pos, st);
-                let mut n = 0usize;
-                while n < max {
-                    let (q, t) = if n > 0 { skip_k(cx, skip, p, s) } else { (p, s) };
-                    match eval(x, cx, q, t) {
-                        Some((q2, t2)) => { p = q2; s = t2; n += 1; }
-                        None => break,
-                    }
-                }
-                // fails iff the repetition stopped (a unit failed) before `min` units
-                if n < min && n < max { None } else { Some((p, s)) }
-            }
-            E::Pos(x) => match eval(x, cx, pos, st) { Some(_) => Some((pos, st)), None => None },
-            E::Neg(x) => match eval(x, cx, pos, st) { Some(_) => None, None => Some((pos, st)) },
-            E::Push(x) => match eval(x, cx, pos, st) { Some((p, s)) => s.push(pos, p).map(|s2| (p, s2)), None => None },
-            E::Peek => match st.pop() {
-                Some((_, (a, b))) => if starts(cx, pos, &cx.s.as_bytes()[a..b]) { Some((pos + (b - a), st)) } else { None },
-                None => None,
-            },
-            E::Pop => match st.pop() {
-                Some((s2, (a, b))) => if starts(cx, pos, &cx.s.as_bytes()[a..b]) { Some((pos + (b - a), s2)) } else { None },
-                None => None,
-            },
-            E::Drop => st.pop().map(|(s2, _)| (pos, s2)),
-            E::PeekAll | E::PopAll => {
-                // top to bottom
-                let mut p = pos;
-                let mut i = st.n;
-                while i > 0 {
-                    i -= 1;
-                    let (a, b) = st.s[i];
-                    if !starts(cx, p, &cx.s.as_bytes()[a..b]) { return None; }
-                    p += b - a;
-                }
-                let out = if let E::PopAll = *e { Stk::new() } else { st };
-                Some((p, out))
-            }
-            E::PeekSlice(a, b) => {
-                // entries a..b bottom to top; negative from the top; empty or inverted range: nothing consumed
-                let lo = norm(a, st.n)?;
-                let hi = match b { Some(b) => norm(b, st.n)?, None => st.n };
-                let mut p = pos;
-                let mut i = lo;
-                while i < hi {
-                    let (x, y) = st.s[i];
-                    if !starts(cx, p, &cx.s.as_bytes()[x..y]) { return None; }
-                    p += y - x;
-                    i += 1;
-                }
-                Some((p, st))
-            }
+
+    pub struct RStr<L>(PhantomData<L>);
+    impl<L: StringWrapper> RN for RStr<L> {
+        fn ev(cx: &Cx<'_>, pos: usize, st: Stk) -> R { if starts(cx, pos, L::CONTENT.as_bytes()) { Some((pos + L::CONTENT.len(), st)) } else { None } }
+    }
+    pub struct RInsens<L>(PhantomData<L>);
+    impl<L: StringWrapper> RN for RInsens<L> {
+        fn ev(cx: &Cx<'_>, pos: usize, st: Stk) -> R {
+            let b = cx.s.as_bytes();
+            let lb = L::CONTENT.as_bytes();
+            if pos + lb.len() > cx.end || !cx.s.is_char_boundary(pos + lb.len()) { return None; }
+            let mut i = 0;
+            while i < lb.len() { if lower(b[pos + i]) != lower(lb[i]) { return None; } i += 1; }
+            Some((pos + lb.len(), st))
         }
     }
+    pub struct RRange<const LO: char, const HI: char>;
+    impl<const LO: char, const HI: char> RN for RRange<LO, HI> {
+        fn ev(cx: &Cx<'_>, pos: usize, st: Stk) -> R {
+            let n = char_len_at(cx, pos)?;
+            let c = cx.s[pos..pos + n].chars().next()?;
+            if LO <= c && c <= HI { Some((pos + n, st)) } else { None }
+        }
+    }
+    pub struct RAny;
+    impl RN for RAny { fn ev(cx: &Cx<'_>, pos: usize, st: Stk) -> R { char_len_at(cx, pos).map(|n| (pos + n, st)) } }
+    pub struct RSoi;
+    impl RN for RSoi { fn ev(cx: &Cx<'_>, pos: usize, st: Stk) -> R { if pos == cx.start { Some((pos, st)) } else { None } } }
+    pub struct REoi;
+    impl RN for REoi { fn ev(cx: &Cx<'_>, pos: usize, st: Stk) -> R { if pos == cx.end { Some((pos, st)) } else { None } } }
+    pub struct RNewline;
+    impl RN for RNewline {
+        fn ev(cx: &Cx<'_>, pos: usize, st: Stk) -> R {
+            if starts(cx, pos, b"\r\n") { Some((pos + 2, st)) } else if starts(cx, pos, b"\n") { Some((pos + 1, st)) } else if starts(cx, pos, b"\r") { Some((pos + 1, st)) } else { None }
+        }
+    }
+    pub struct RSkipChar<const N: usize>;
+    impl<const N: usize> RN for RSkipChar<N> {
+        fn ev(cx: &Cx<'_>, pos: usize, st: Stk) -> R {
+            let mut p = pos;
+            let mut i = 0;
+            while i < N { p += char_len_at(cx, p)?; i += 1; }
+            Some((p, st))
+        }
+    }
+    /// least boundary offset at which a needle is a prefix of the remaining *sub-input*, else its end; never fails
+    pub struct RSkipUntil<W>(PhantomData<W>);
+    impl<W: StringArrayWrapper> RN for RSkipUntil<W> {
+        fn ev(cx: &Cx<'_>, pos: usize, st: Stk) -> R {
+            let mut p = pos;
+            while p < cx.end {
+                if cx.s.is_char_boundary(p) {
+                    let mut j = 0;
+                    while j < W::CONTENT.len() { if starts(cx, p, W::CONTENT[j].as_bytes()) { return Some((p, st)); } j += 1; }
+                }
+                p += 1;
+            }
+            Some((cx.end, st))
+        }
+    }
+    // sequences: SKIP applications of SK before every element but the first
+    pub struct RSeq2<A, B, SK, const SKIP: usize>(PhantomData<(A, B, SK)>);
+    impl<A: RN, B: RN, SK: RNF, const SKIP: usize> RN for RSeq2<A, B, SK, SKIP> {
+        fn ev(cx: &Cx<'_>, pos: usize, st: Stk) -> R {
+            let (p, s) = A::ev(cx, pos, st)?;
+            let (p, s) = skip_k::<SK>(cx, SKIP, p, s);
+            B::ev(cx, p, s)
+        }
+    }
+    pub struct RSeq3<A, B, C, SK, const SKIP: usize>(PhantomData<(A, B, C, SK)>);
+    impl<A: RN, B: RN, C: RN, SK: RNF, const SKIP: usize> RN for RSeq3<A, B, C, SK, SKIP> {
+        fn ev(cx: &Cx<'_>, pos: usize, st: Stk) -> R {
+            let (p, s) = A::ev(cx, pos, st)?;
+            let (p, s) = skip_k::<SK>(cx, SKIP, p, s);
+            let (p, s) = B::ev(cx, p, s)?;
+            let (p, s) = skip_k::<SK>(cx, SKIP, p, s);
+            C::ev(cx, p, s)
+        }
+    }
+    pub struct RSeq4<A, B, C, D, SK, const SKIP: usize>(PhantomData<(A, B, C, D, SK)>);
+    impl<A: RN, B: RN, C: RN, D: RN, SK: RNF, const SKIP: usize> RN for RSeq4<A, B, C, D, SK, SKIP> {
+        fn ev(cx: &Cx<'_>, pos: usize, st: Stk) -> R {
+            let (p, s) = A::ev(cx, pos, st)?;
+            let (p, s) = skip_k::<SK>(cx, SKIP, p, s);
+            let (p, s) = B::ev(cx, p, s)?;
+            let (p, s) = skip_k::<SK>(cx, SKIP, p, s);
+            let (p, s) = C::ev(cx, p, s)?;
+            let (p, s) = skip_k::<SK>(cx, SKIP, p, s);
+            D::ev(cx, p, s)
+        }
+    }
+    // ordered choice: every alternative on the original (pos, st)
+    pub struct RChoice2<A, B>(PhantomData<(A, B)>);
+    impl<A: RN, B: RN> RN for RChoice2<A, B> {
+        fn ev(cx: &Cx<'_>, pos: usize, st: Stk) -> R { match A::ev(cx, pos, st) { Some(r) => Some(r), None => B::ev(cx, pos, st) } }
+    }
+    pub struct RChoice3<A, B, C>(PhantomData<(A, B, C)>);
+    impl<A: RN, B: RN, C: RN> RN for RChoice3<A, B, C> {
+        fn ev(cx: &Cx<'_>, pos: usize, st: Stk) -> R {
+            match A::ev(cx, pos, st) { Some(r) => Some(r), None => match B::ev(cx, pos, st) { Some(r) => Some(r), None => C::ev(cx, pos, st) } }
+        }
+    }
+    pub struct ROpt<A>(PhantomData<A>);
+    impl<A: RN> RN for ROpt<A> {
+        fn ev(cx: &Cx<'_>, pos: usize, st: Stk) -> R { match A::ev(cx, pos, st) { Some(r) => Some(r), None => Some((pos, st)) } }
+    }
+    /// greedy repetition: MIN..=MAX units (MAX = usize::MAX: unbounded); unit i>0 = SKIP skips then the body,
+    /// evaluated from the state after unit i-1; the state after a failed unit is the state before it.
+    pub struct RRep<A, SK, const SKIP: usize, const MIN: usize, const MAX: usize>(PhantomData<(A, SK)>);
+    impl<A: RN, SK: RNF, const SKIP: usize, const MIN: usize, const MAX: usize> RN for RRep<A, SK, SKIP, MIN, MAX> {
+        fn ev(cx: &Cx<'_>, pos: usize, st: Stk) -> R {
+            let (mut p, mut s) = (pos, st);
+            let mut n = 0usize;
+            while n < MAX {
+                let (q, t) = if n > 0 { skip_k::<SK>(cx, SKIP, p, s) } else { (p, s) };
+                match A::ev(cx, q, t) { Some((q2, t2)) => { p = q2; s = t2; n += 1; } None => break }
+            }
+            if n < MIN && n < MAX { None } else { Some((p, s)) }
+        }
+    }
+    impl<A: RN, SK: RNF, const SKIP: usize, const MIN: usize, const MAX: usize> RNF for RRep<A, SK, SKIP, MIN, MAX> {
+        fn evn(cx: &Cx<'_>, pos: usize, st: Stk) -> (usize, Stk) { match <Self as RN>::ev(cx, pos, st) { Some(r) => r, None => (pos, st) } }
+    }
+    pub struct RNoSkip;
+    impl RNF for RNoSkip { fn evn(_cx: &Cx<'_>, pos: usize, st: Stk) -> (usize, Stk) { (pos, st) } }
+    pub struct RPos<A>(PhantomData<A>);
+    impl<A: RN> RN for RPos<A> { fn ev(cx: &Cx<'_>, pos: usize, st: Stk) -> R { match A::ev(cx, pos, st) { Some(_) => Some((pos, st)), None => None } } }
+    pub struct RNeg<A>(PhantomData<A>);
+    impl<A: RN> RN for RNeg<A> { fn ev(cx: &Cx<'_>, pos: usize, st: Stk) -> R { match A::ev(cx, pos, st) { Some(_) => None, None => Some((pos, st)) } } }
+    pub struct RPush<A>(PhantomData<A>);
+    impl<A: RN> RN for RPush<A> {
+        fn ev(cx: &Cx<'_>, pos: usize, st: Stk) -> R { let (p, s) = A::ev(cx, pos, st)?; s.push(pos, p).map(|s2| (p, s2)) }
+    }
+    pub struct RPeek;
+    impl RN for RPeek {
+        fn ev(cx: &Cx<'_>, pos: usize, st: Stk) -> R {
+            let (_, (a, b)) = st.pop()?;
+            if starts(cx, pos, &cx.s.as_bytes()[a..b]) { Some((pos + (b - a), st)) } else { None }
+        }
+    }
+    pub struct RPop;
+    impl RN for RPop {
+        fn ev(cx: &Cx<'_>, pos: usize, st: Stk) -> R {
+            let (s2, (a, b)) = st.pop()?;
+            if starts(cx, pos, &cx.s.as_bytes()[a..b]) { Some((pos + (b - a), s2)) } else { None }
+        }
+    }
+    pub struct RDrop;
+    impl RN for RDrop { fn ev(_cx: &Cx<'_>, pos: usize, st: Stk) -> R { st.pop().map(|(s2, _)| (pos, s2)) } }
+    fn match_all(cx: &Cx<'_>, pos: usize, st: Stk) -> Option<usize> {
+        let mut p = pos;
+        let mut i = st.n;
+        while i > 0 {
+            i -= 1;
+            let (a, b) = st.s[i];
+            if !starts(cx, p, &cx.s.as_bytes()[a..b]) { return None; }
+            p += b - a;
+        }
+        Some(p)
+    }
+    pub struct RPeekAll;
+    impl RN for RPeekAll { fn ev(cx: &Cx<'_>, pos: usize, st: Stk) -> R { match_all(cx, pos, st).map(|p| (p, st)) } }
+    pub struct RPopAll;
+    impl RN for RPopAll { fn ev(cx: &Cx<'_>, pos: usize, st: Stk) -> R { match_all(cx, pos, st).map(|p| (p, Stk::new())) } }
+    /// PEEK[a..b]: entries a..b bottom to top; negative indices from the top; empty or inverted range consumes nothing
+    pub fn peek_slice(cx: &Cx<'_>, pos: usize, st: Stk, a: i32, b: Option<i32>) -> R {
+        let lo = norm(a, st.n)?;
+        let hi = match b { Some(b) => norm(b, st.n)?, None => st.n };
+        let mut p = pos;
+        let mut i = lo;
+        while i < hi {
+            let (x, y) = st.s[i];
+            if !starts(cx, p, &cx.s.as_bytes()[x..y]) { return None; }
+            p += y - x;
+            i += 1;
+        }
+        Some((p, st))
+    }
+    pub struct RPeekSlice2<const A: i32, const B: i32>;
+    impl<const A: i32, const B: i32> RN for RPeekSlice2<A, B> { fn ev(cx: &Cx<'_>, pos: usize, st: Stk) -> R { peek_slice(cx, pos, st, A, Some(B)) } }
+    pub struct RPeekSlice1<const A: i32>;
+    impl<const A: i32> RN for RPeekSlice1<A> { fn ev(cx: &Cx<'_>, pos: usize, st: Stk) -> R { peek_slice(cx, pos, st, A, None) } }
 }
